@@ -39,8 +39,13 @@ pub trait DynMap {
     fn iter_check(&mut self, model: &BTreeMap<Vec<u8>, Vec<u8>>) -> Option<String>;
     fn clone_box(&self) -> Box<dyn DynMap>;
     fn items(&mut self) -> Vec<(Vec<u8>, Vec<u8>)>;
+    /// put_from_iter fed by the iterator of another handle of the same map: every entry is stored again
+    /// with the value it has (the contents do not change)
+    fn put_from_alias_iter(&mut self) -> io::Result<()>;
     /// every statistics call once (results ignored)
     fn stats_all(&mut self);
+    /// the statistics calls compared with an independently decoded image of the files
+    fn stats_complaint(&mut self, d: &decoder::Decoded) -> Option<String>;
     /// the other lookups: includes_key, bulk_get, get_string, bulk_get_string
     fn lookups_all(&mut self, keys: &[Vec<u8>]);
     fn partial_iter(&mut self, steps: usize) -> Box<dyn std::any::Any>;
@@ -79,6 +84,13 @@ impl<T: Kt> DynMap for FileDbMap<T> {
     }
     fn bulk_put(&mut self, pairs: &[(&[u8], &[u8])]) -> io::Result<()> {
         DbXxx::bulk_put(self, pairs)
+    }
+    fn stats_complaint(&mut self, d: &decoder::Decoded) -> Option<String> {
+        crate::engine_a::stats_vs_decoded(self, d)
+    }
+    fn put_from_alias_iter(&mut self) -> io::Result<()> {
+        let alias = self.clone();
+        DbXxx::put_from_iter(self, alias.iter())
     }
     fn stats_all(&mut self) {
         use abyssiniandb::filedb::CheckFileDbMap;
@@ -178,6 +190,8 @@ pub const L_FILL: u8 = 15;
 pub const L_BULK_PUT: u8 = 17;
 /// a full traversal (several iterator flavours) compared with the model
 pub const L_ITER_CHECK: u8 = 18;
+/// put_from_iter(alias.iter()): re-stores every entry through an aliasing handle's iterator
+pub const L_PFI_ALIAS: u8 = 19;
 
 pub const H_FIRST: u8 = 0;
 pub const H_CLONE: u8 = 1;
@@ -194,6 +208,7 @@ pub const F_SNAPSHOT_AT_SYNC: u32 = 16; // C03: at every Ok durability call copy
 pub const F_SYNC_LOG: u32 = 32; // C03: at sync_* the shim log must show fsync/fdatasync after the last write of each file
 pub const F_SPLICE_RO: u32 = 64; // C18: read-only calls after every update
 pub const F_ALLOW_ERR_NOT_WRONG: u32 = 128;
+pub const F_STATS_AT_SYNC: u32 = 256; // C17: at every Ok durability call the live handle's statistics = the decoded copy of the directory
 
 #[derive(Clone, Debug)]
 pub struct BCfg {
@@ -284,6 +299,7 @@ impl BCfg {
             L_DROP_DB => "drop the database handle (map handles stay)".into(),
             L_KEEP_ITER => format!("start an iterator on map {}, take one item, keep it alive", m.name),
             L_FILL => format!("read_fill_buffer() {}", via(l.handle)),
+            L_PFI_ALIAS => format!("put_from_iter fed by the iterator of a clone of the handle {}", via(l.handle)),
             L_ITER_CHECK => format!("traverse (iter, keys, values, into_iter, iter with len() between the steps) and compare {}", via(l.handle)),
             L_BULK_PUT => format!("bulk_put of all {} keys (value sizes rotated from #{}) {}", m.keys.len(), l.val, via(l.handle)),
             40 => "flush() [map m] with its first write refused by the operating system (ENOSPC), then the condition is lifted".to_string(),
@@ -562,6 +578,12 @@ impl BState {
                 };
                 if let Some(f) = r.failed() {
                     return bad(format!("{} {f}", cfg.label(l)));
+                }
+            }
+            L_PFI_ALIAS => {
+                let r = guard(|| h.put_from_alias_iter());
+                if r != Out::Ok(()) {
+                    return bad(format!("{} {}", cfg.label(l), r.failed().unwrap_or_default()));
                 }
             }
             L_ITER_CHECK => {
@@ -1144,6 +1166,25 @@ pub fn c01_live(ctx: &mut Ctx) {
         other_params: Params::defaults(),
     };
     run_b(ctx, "2 keys x multi-kilobyte values through the handle and its clone", &cfg2, if thorough { 240.0 } else { 12.0 });
+    // a second map of the same key type in the same database, opened before or after the first (its name sorts
+    // before the first one's): the history of each map must be answered from its own contents
+    for kt in KtId::ALL {
+        if !ctx.run.violations.is_empty() {
+            break;
+        }
+        let m0 = std_map(kt, 8, 1, 9, seed, "m");
+        let mut m1 = std_map(kt, 8, 1, 9, seed, "a");
+        m1.keys = m0.keys.clone();
+        let mut letters = Vec::new();
+        for mi in 0..2u8 {
+            letters.push(Letter { kind: L_PUT, map: mi, handle: H_FIRST, key: 0, val: mi });
+            letters.push(Letter { kind: L_DEL, map: mi, handle: H_FIRST, key: 0, val: 0 });
+            letters.push(Letter { kind: L_GET, map: mi, handle: H_FIRST, key: 0, val: 0 });
+            letters.push(Letter { kind: L_LEN, map: mi, handle: H_FIRST, key: 0, val: 0 });
+        }
+        let cfg4 = BCfg { prop: "C01".into(), maps: vec![m0, m1], val_lens: vec![5, 9], letters, depth: if thorough { 5 } else { 4 }, flags: F_DECODE_END, seed, reopen: vec![], other_params: Params::defaults() };
+        run_b(ctx, &format!("two {} maps `m` and `a` in one database, the same key in both", kt.name()), &cfg4, if thorough { 60.0 } else { 5.0 });
+    }
     if thorough {
         let cfg3 = BCfg {
             prop: "C01".into(),
